@@ -169,7 +169,8 @@ Definition root_entry (root_name : str) : str := path_with_pre [] root_name.
 (* d2ir.Compile on [root] (an entry as produced by root_entry) with imports resolved in [fs].
    [checked = true]: compiler.__import (stack test; an earlier report stops later expansions because the
    imported file is parsed into the shared ParseError).
-   [checked = false]: d2ir.peekImport (no stack test; parses into a ParseError of its own).
+   [checked = false]: d2ir.peekImport as it was before commit 528a6569a (no test at all; parses into a
+   ParseError of its own) — historical, see import_peek below for the code as it is.
    Result: events and whether an error was reported; None = fuel exhausted. *)
 Definition import_run (checked : bool) (fuel : nat) (fs : fileset) (root : str) (root_imports : list imp)
   : option (list ev * bool) :=
@@ -178,6 +179,15 @@ Definition import_run (checked : bool) (fuel : nat) (fs : fileset) (root : str) 
 Definition import_visit (checked : bool) (fuel : nat) (fs : fileset) (root : str) (root_imports : list imp)
            (stack : list str) (p : str) (errored : bool) : option (list ev * bool) :=
   visit str_eqb (openable fs) (succ_of fs root root_imports) checked checked fuel stack p errored.
+
+(* d2ir.peekImport as it is since commit 528a6569a: the paths being peeked into ([peeking]) are remembered
+   and a path among them is not peeked into again (no report: the real import reports); the errors met
+   while peeking are discarded, so nothing stops later expansions.  The expansions below a peek (further
+   peeks, and real imports with their own stack test) are over-approximated by one expansion with the test
+   against [peeking]. *)
+Definition import_peek (fuel : nat) (fs : fileset) (root : str) (root_imports : list imp)
+           (peeking : list str) (p : str) (errored : bool) : option (list ev * bool) :=
+  visit str_eqb (openable fs) (succ_of fs root root_imports) true false fuel peeking p errored.
 
 Lemma openable_in_names fs p : openable fs p = true -> In p (names fs).
 Proof.
